@@ -149,8 +149,30 @@ def pipeline(c, nflow, npar, nscen, seed_off=0, par_exec=0, race=False, progs=No
     binary, err = build_runner(c, root, race)
     if binary is None:
         viol("C13", "generated code does not compile:\n" + err[-2000:], dict(kind="gen-corpus", seed_off=seed_off, nflow=nflow, npar=npar))
-        c.inconclusive.append("generated code does not compile: " + err[-400:])
-        return 0
+        # go on with the programs whose files do compile: what they do is still to be judged
+        for attempt in range(4):
+            badfiles = {(m.group(1), m.group(2)) for m in re.finditer(r"(?m)^(\w+)/(\w+)_gen\.go:\d+", err)}
+            if not badfiles:
+                break
+            for pkg, stem in badfiles:
+                for f in (stem + ".go", stem + "_gen.go"):
+                    if os.path.exists(os.path.join(root, pkg, f)):
+                        os.remove(os.path.join(root, pkg, f))
+                pk[pkg] = [p for p in pk[pkg] if p.get("file") != stem + ".go"]
+            for pkg in pk:
+                render.write_registry(root, pkg, pk[pkg])
+            left = {p["name"] for ps in pk.values() for p in ps}
+            jobs = [j for j in jobs if j["prog"] in left]
+            with open(os.path.join(root, "scen.ndjson"), "w") as f:
+                f.write("".join(json.dumps(j) + "\n" for j in jobs))
+            byname = {p["name"]: p for ps in pk.values() for p in ps}
+            binary, err = build_runner(c, root, race)
+            if binary is not None:
+                break
+        if binary is None:
+            c.inconclusive.append("generated code does not compile: " + err[-400:])
+            return 0
+        c.notes.append("files whose generated code does not compile were left out; %d programs remain" % len(byname))
     c.log("executing %d scenarios" % len(jobs))
     env = dict(GOENV, GORACE="halt_on_error=0 exitcode=66") if race else None
     trace, r, last = execute(c, binary, root, env=env)
